@@ -371,6 +371,9 @@ type world struct {
 	genesis     types.Block
 	hostKey     types.PrivateKey
 	renterKey   types.PrivateKey
+	funderKey   types.PrivateKey
+	funder      []types.SiacoinElement // the funder\'s unspent outputs at w.prev
+	funderUsed  map[types.SiacoinOutputID]bool
 	host        *node
 	prev        types.ChainIndex // tip up to which the harness has derived diffs
 	derived     bool             // genesis derived
@@ -437,9 +440,9 @@ func makeNetwork(kind string) (*consensus.Network, types.Block) {
 func newWorld(t testing.TB, net string, batch int, spaced bool) *world {
 	network, genesis := makeNetwork(net)
 	w := &world{t: t, net: net, batch: batch, spaced: spaced, network: network, genesis: genesis,
-		hostKey: seedKey(7001), renterKey: seedKey(7002),
+		hostKey: seedKey(7001), renterKey: seedKey(7002), funderKey: seedKey(7003),
 		oids: map[types.Hash256]int{}, bids: map[types.BlockID]int{}, addrs: map[string]int{},
-		t0: time.Now().Truncate(5 * time.Minute).Add(30 * time.Second), refused: map[int]int{}, lastRej: map[int]string{}, fundFail: map[int]int{}, freshOK: map[int]int{}, freshRej: map[int]int{}, midRef: map[int]int{}}
+		t0: time.Now().Truncate(5 * time.Minute).Add(30 * time.Second), refused: map[int]int{}, funderUsed: map[types.SiacoinOutputID]bool{}, lastRej: map[int]string{}, fundFail: map[int]int{}, freshOK: map[int]int{}, freshRej: map[int]int{}, midRef: map[int]int{}}
 	w.host = newNode(t, t.TempDir(), w.hostKey, network, genesis, batch)
 	return w
 }
@@ -497,10 +500,81 @@ func (w *world) mineOn(cs consensus.State, txns []types.Transaction, v2txns []ty
 }
 
 func (w *world) payAddr(to string) types.Address {
-	if to == "host" {
+	switch to {
+	case "host":
 		return w.host.w.Address()
+	case "funder":
+		return types.StandardUnlockHash(w.funderKey.PublicKey())
 	}
 	return types.VoidAddress
+}
+
+// evType numbers the wallet event types
+func evType(t string) int {
+	switch t {
+	case cwallet.EventTypeV1Transaction:
+		return 1
+	case cwallet.EventTypeV2Transaction:
+		return 2
+	case cwallet.EventTypeMinerPayout:
+		return 3
+	case cwallet.EventTypeV1ContractResolution:
+		return 4
+	case cwallet.EventTypeV2ContractResolution:
+		return 5
+	case cwallet.EventTypeSiafundClaim:
+		return 6
+	case cwallet.EventTypeFoundationSubsidy:
+		return 7
+	}
+	return 9
+}
+
+// the funder is a third party whose outputs the harness follows through the same update stream (ids for v1
+// transactions, elements with proofs for v2 transactions)
+func (w *world) funderApply(au chain.ApplyUpdate) {
+	addr := w.payAddr("funder")
+	for _, d := range au.SiacoinElementDiffs() {
+		if d.SiacoinElement.SiacoinOutput.Address != addr || (d.Created && d.Spent) {
+			continue
+		}
+		if d.Created {
+			w.funder = append(w.funder, d.SiacoinElement.Copy())
+		} else if d.Spent {
+			w.funderDrop(d.SiacoinElement.ID)
+		}
+	}
+	for i := range w.funder {
+		au.UpdateElementProof(&w.funder[i].StateElement)
+	}
+}
+
+func (w *world) funderRevert(ru chain.RevertUpdate) {
+	addr := w.payAddr("funder")
+	var unspent []types.SiacoinElement
+	for _, d := range ru.SiacoinElementDiffs() {
+		if d.SiacoinElement.SiacoinOutput.Address != addr || (d.Created && d.Spent) {
+			continue
+		}
+		if d.Created {
+			w.funderDrop(d.SiacoinElement.ID)
+		} else if d.Spent {
+			unspent = append(unspent, d.SiacoinElement.Copy())
+		}
+	}
+	for i := range w.funder {
+		ru.UpdateElementProof(&w.funder[i].StateElement)
+	}
+	w.funder = append(w.funder, unspent...)
+}
+
+func (w *world) funderDrop(id types.SiacoinOutputID) {
+	for i := range w.funder {
+		if w.funder[i].ID == id {
+			w.funder = append(w.funder[:i], w.funder[i+1:]...)
+			return
+		}
+	}
 }
 
 func (w *world) tipTimestamp(cm *chain.Manager) time.Time {
@@ -592,6 +666,7 @@ func (w *world) deriveUpdates() ([]string, error) {
 			for _, e := range rec.spent {
 				sp = append(sp, triple(w, e))
 			}
+			w.funderRevert(ru)
 			fcs := w.contractEvents(ru.V2FileContractElementDiffs(), ru.FileContractElementDiffs(), true, idx.Height)
 			toks = append(toks, fmt.Sprintf("u=R|%d|%d|%s|%s|-|-|-|%s|%d", idx.Height, w.bid(idx.ID), joinOr(cr, "/"), joinOr(sp, "/"), joinOr(fcs, "/"), ru.Block.Timestamp.Unix()/300))
 			since = ru.State.Index
@@ -610,8 +685,9 @@ func (w *world) deriveUpdates() ([]string, error) {
 				sp = append(sp, triple(w, e))
 			}
 			for _, e := range rec.events {
-				ev = append(ev, fmt.Sprint(w.oid(e.ID)))
+				ev = append(ev, fmt.Sprintf("%d.%d", w.oid(e.ID), evType(e.Type)))
 			}
+			w.funderApply(au)
 			a1, a2 := "-", "-"
 			pk := w.hostKey.PublicKey()
 			chain.ForEachHostAnnouncement(au.Block, func(a chain.HostAnnouncement) {
@@ -706,11 +782,16 @@ func (w *world) observeNode(n *node, pfx string) string {
 		return sb.String() + " " + pfx + "obserr=events"
 	}
 	es := make([]string, 0, len(evs))
-	sort.Slice(evs, func(i, j int) bool { return w.oid(evs[i].ID) < w.oid(evs[j].ID) })
+	var order []string
 	for _, e := range evs {
-		es = append(es, fmt.Sprintf("%d:%d", w.oid(e.ID), w.bid(e.Index.ID)))
+		order = append(order, fmt.Sprint(e.MaturityHeight)) // as returned: maturity height, descending
 	}
-	fmt.Fprintf(&sb, " %sev=[%s] %sevn=%d", pfx, strings.Join(es, ","), pfx, cnt)
+	sort.SliceStable(evs, func(i, j int) bool { return w.oid(evs[i].ID) < w.oid(evs[j].ID) })
+	for _, e := range evs {
+		// id:block:type:height of the block:maturity height
+		es = append(es, fmt.Sprintf("%d:%d:%d:%d:%d", w.oid(e.ID), w.bid(e.Index.ID), evType(e.Type), e.Index.Height, e.MaturityHeight))
+	}
+	fmt.Fprintf(&sb, " %sev=[%s] %sevn=%d %sevo=[%s]", pfx, strings.Join(es, ","), pfx, cnt, pfx, strings.Join(order, ","))
 	bal, err := n.w.Balance()
 	if err != nil {
 		return sb.String() + " " + pfx + "obserr=balance"
@@ -1266,8 +1347,13 @@ func bucket(d int) string {
 }
 
 // doSend makes the host wallet pay amt siacoins (to void or to itself) through its transaction pool.
-func (w *world) doSend(tr *vhlib.Trace, amtSC uint64, to string) {
+func (w *world) doSend(tr *vhlib.Trace, amtSC uint64, to string, unconf ...bool) {
 	op := fmt.Sprintf("send amt=%d to=%s", amtSC, to)
+	useUnconfirmed := len(unconf) > 0 && unconf[0]
+	if useUnconfirmed {
+		// may spend an output that an earlier pool transaction of the wallet creates (same-block create and spend)
+		op += " unconf=1"
+	}
 	if w.dead {
 		return
 	}
@@ -1281,19 +1367,19 @@ func (w *world) doSend(tr *vhlib.Trace, amtSC uint64, to string) {
 	res := "ok"
 	if cs.Index.Height+1 < cs.Network.HardforkV2.AllowHeight {
 		txn := types.Transaction{SiacoinOutputs: []types.SiacoinOutput{{Address: dest, Value: amt}}}
-		toSign, err := n.w.FundTransaction(&txn, amt, false)
+		toSign, err := n.w.FundTransaction(&txn, amt, useUnconfirmed)
 		if err != nil {
 			res = "nofunds"
 		} else {
 			n.w.SignTransaction(&txn, toSign, types.CoveredFields{WholeTransaction: true})
-			if _, err := n.cm.AddPoolTransactions([]types.Transaction{txn}); err != nil {
+			if _, err := n.cm.AddPoolTransactions(append(n.cm.UnconfirmedParents(txn), txn)); err != nil {
 				n.w.ReleaseInputs([]types.Transaction{txn}, nil)
 				res = "poolrej"
 			}
 		}
 	} else {
 		txn := types.V2Transaction{SiacoinOutputs: []types.SiacoinOutput{{Address: dest, Value: amt}}}
-		basis, toSign, err := n.w.FundV2Transaction(&txn, amt, false)
+		basis, toSign, err := n.w.FundV2Transaction(&txn, amt, useUnconfirmed)
 		if err != nil {
 			res = "nofunds"
 		} else {
